@@ -152,7 +152,7 @@ func runC12(r *R) {
 
 	// ---- R2 + R3
 	r.Rule("C12-R2", "weight = Md5String(hash + uuid[12:]) when len(uuid)==27, else Md5String(hash+uuid); Md5String = hex md5; Less(i,j) = weight[order[j]] < weight[order[i]] (descending); Python sibling uses service_uuid[-15:]", 4)
-	r.Rule("C12-R3", "order depends on (hash, uuid) only: weight[i] from the hash parameter and the map key; root[i] from the map value", 2)
+	r.Rule("C12-R3", "order depends on (hash, uuid) only: weight[i] from the hash parameter and the map key; root[i] from the map value", 1)
 	if fn := r.NeedFn("C12-R2", rsT+"getWeight"); fn != nil {
 		hash, uuid := paramOf(fn, "hash"), paramOf(fn, "uuid")
 		n := 0
@@ -201,11 +201,15 @@ func runC12(r *R) {
 	}
 	if fn := r.NeedFn("C12-R2", rsT+"Less"); fn != nil {
 		for _, ret := range Returns(fn) {
-			bo, ok := Strip(ret.Results[0]).(*ssa.BinOp)
-			okv := ok && bo.Op == token.LSS
+			lo, hi, strict, ok := NormLess(ret.Results[0])
+			okv := ok && strict
 			if okv {
-				// X = weight[order[j]], Y = weight[order[i]]
-				okv = strings.Contains(Canon(bo.X), "param:j") && strings.Contains(Canon(bo.Y), "param:i") && strings.Contains(Canon(bo.X), "RootSorter.weight") && strings.Contains(Canon(bo.X), "RootSorter.order")
+				// lo = weight[order[j]], hi = weight[order[i]]  (written `lo < hi` or `hi > lo`)
+				isW := func(v ssa.Value, p string) bool {
+					c := Canon(v)
+					return strings.Contains(c, "param:"+p) && strings.Contains(c, "RootSorter.weight") && strings.Contains(c, "RootSorter.order")
+				}
+				okv = isW(lo, "j") && isW(hi, "i") && !strings.Contains(Canon(lo), "param:i") && !strings.Contains(Canon(hi), "param:j")
 			}
 			r.Check(okv, "C12-R2", fn, "weight[order[j]] < weight[order[i]]", ret.Pos(), "descending by weight", "sort direction or key changed")
 		}
@@ -249,7 +253,7 @@ func runC12(r *R) {
 	}
 
 	// ---- R4
-	r.Rule("C12-R4", "getSortedRoots: hint URIs (7-char cluster form; 29-char form with a GatewayRoots hit) are appended before the sorted local roots; the hint loop has no exit other than exhaustion", 3)
+	r.Rule("C12-R4", "getSortedRoots: hint URIs (7-char cluster form; 29-char form with a GatewayRoots hit) are appended before the sorted local roots; the hint loop has no exit other than exhaustion", 1)
 	if fn := r.NeedFn("C12-R4", kcT+"getSortedRoots"); fn != nil {
 		var sorterAppend ssa.Instruction
 		var hintAppends []ssa.Instruction
@@ -314,7 +318,7 @@ func runC12(r *R) {
 	}
 
 	// ---- R5
-	r.Rule("C12-R5", "balanceBlock: srvRendezvous[srv] = index in the sorted uuid list; the slot comparator consults it", 2)
+	r.Rule("C12-R5", "balanceBlock: srvRendezvous[srv] = index in the sorted uuid list; the slot comparator consults it", 1)
 	if fn := w.Fn("(*" + kb + ".Balancer).balanceBlock"); fn != nil {
 		n := 0
 		allInstrs(fn, func(in ssa.Instruction) {
@@ -323,14 +327,19 @@ func runC12(r *R) {
 				return
 			}
 			n++
-			// value is the range index over uuids (result of GetSortedRoots)
+			// key = bal.KeepServices[sorted[I]] and value = the same I, sorted = GetSortedRoots() (range or index loop)
 			okv := false
-			if bo, isB := Strip(mu.Value).(*ssa.BinOp); isB && bo.Op == token.ADD {
-				if k, _ := ConstInt(bo.Y); k == 1 {
-					okv = true
+			okKey := false
+			if lk, isL := Resolve1(mu.Key).(*ssa.Lookup); isL && strings.Contains(Canon(lk.X), "KeepServices") {
+				if u, isU := Resolve1(lk.Index).(*ssa.UnOp); isU && u.Op == token.MUL {
+					if ia, isIA := u.X.(*ssa.IndexAddr); isIA {
+						if cc, isC := Resolve1(ia.X).(*ssa.Call); isC && strings.HasSuffix(CalleeName(cc.Common()), "GetSortedRoots") {
+							okKey = true
+							okv = Strip(ia.Index) == Strip(mu.Value) || Resolve1(ia.Index) == Resolve1(mu.Value)
+						}
+					}
 				}
 			}
-			okKey := strings.Contains(Canon(mu.Key), "KeepServices")
 			r.Check(okv && okKey, "C12-R5", fn, "srvRendezvous[srv] = i", in.Pos(), "rank = position in the rendezvous order", "server rank is not its position in the rendezvous-sorted list")
 		})
 		used := false
